@@ -38,6 +38,13 @@ namespace cxx11_atomic {
 }} // namespace cds::cxx11_atomic
 
 //@cond
+#ifdef KHIZMAX_LIBCDS_VERIF
+    // verification build: instrumented atomics supplied by the verification framework (-I<verif>/include)
+#   include <cds_verif/atomic.h>
+    namespace atomics = cds_verif::atomics;
+#   define CDS_CXX11_ATOMIC_BEGIN_NAMESPACE namespace cds_verif { namespace atomics {
+#   define CDS_CXX11_ATOMIC_END_NAMESPACE }}
+#else
 #if defined(CDS_USE_BOOST_ATOMIC)
     // boost atomic
 #   include <boost/version.hpp>
@@ -62,6 +69,7 @@ namespace cxx11_atomic {
 #   define CDS_CXX11_ATOMIC_BEGIN_NAMESPACE namespace std {
 #   define CDS_CXX11_ATOMIC_END_NAMESPACE }
 #endif
+#endif // KHIZMAX_LIBCDS_VERIF
 //@endcond
 
 namespace cds {
